@@ -15,7 +15,7 @@ RULE = ("implicit: Hypothesis build programs without explicit relations (<= 8 it
         "and earlier), the returned circuit lists the same objects as the flattened one, and "
         "a second flatten() changes neither listing nor schedule. deep_programs: fixed long programs of k sub-circuits x m "
         "sequential gates (6x100, 3x250; thorough also 12x120, 40x50, 2x1200), same clauses. library: repetition-code circuits (d 2..4, 0..6 cycles, "
-        "refocusing on/off; long experiments of 30 and 45 cycles, thorough up to 200 cycles, multi-round up to 60 cycles per block), the simplified constructor, multi-round experiments and calibration circuits, modifiers "
+        "refocusing on/off; data qubits prepared in every one of the six initial states; long experiments of 30 and 45 cycles, thorough up to 200 cycles, multi-round up to 60 cycles per block), the simplified constructor, multi-round experiments and calibration circuits, modifiers "
         "applied: listing signature sequence, schedule, duration, acquisition indices (per qubit and per tag) and the "
         "exported Stim text are identical before and after flatten(). Non-trivial = nesting depth >= 2 or >= 2 sibling "
         "sub-circuits; distinct = canonical JSON.")
@@ -129,6 +129,13 @@ def items_library(tier):
         yield {"ctor": "simplified", "d": d, "cycles": 3, "refocus": False}
         yield {"ctor": "multi", "d": d, "rounds": [0, 2, 1] if d == 2 else [3, 0]}
         yield {"ctor": "multi", "d": d, "rounds": [4]}
+    # every preparable initial state (each brings its own preparation gate kind into the nested blocks)
+    six = ["ZERO", "ONE", "PLUS", "MINUS", "PLUS_I", "MINUS_I"]
+    for d in ds:
+        for shift in range(6):
+            states = [six[(shift + 2 * i) % 6] if shift % 2 == 0 else six[(shift + i) % 6] for i in range(d)]
+            yield {"ctor": "repcode", "d": d, "cycles": 2, "states": states}
+            yield {"ctor": "multi", "d": d, "rounds": [1, 2], "states": states}
     # long experiments: the flattened circuit is one graph as deep as the whole program (about 19 relation layers per
     # QEC cycle), far deeper than any of the nested graphs it is built from
     for d, c in ([(2, 30), (3, 45)] if tier == "quick" else [(2, 30), (3, 45), (2, 90), (3, 120), (2, 200)]):
